@@ -7,6 +7,7 @@ from pathlib import Path
 VERIF = Path(__file__).resolve().parent.parent
 ALL = [f"C{i:02d}" for i in range(1, 21)]
 
+SQL = "TLA+ spec SqlProgram (TLC exhaustive: table contents x call histories through the modelled Select machine) + replay of every TLC state into the real SQL engine and SQLite (both scan orders) + real trees judged by TLC (TraceTree)"
 ITER = "TLA+ spec IterProgram (TLC exhaustive: leaf contents x call histories) + replay of every TLC state into the real iteration engine + real trees judged by TLC (TraceTree)"
 CHECKS = {
     "C01": dict(
@@ -44,6 +45,30 @@ CHECKS = {
         text="For every reachable IterProgram state TLC lists the ill-formed requests of a 24-entry menu (missing columns in calculation/projection/selection/sort, existing tag, column-free calculation, negative/reversed/stepped slices, chain with different columns or engine, engine-restricted functions) with the exception class the model predicts (invariant RejectsAll: every ill-formed request is rejected by the model); the replay issues each against the real relation, demands the documented class and an unchanged relation (repr/str/columns/bounds/hash).",
         design_ref="§6 C20",
         note="default preferred-engine options in this round; the option combinations are added with the MultiEngine spec",
+    ),
+    "C02": dict(
+        technique=SQL,
+        text="TLC enumerates programs over tables T1{a,b} (3-12 contents incl. duplicates/empties, exact/loose/zero/unbounded declarations), T2{a,c}, T3{a,b}: the six unary operations from a general menu (all projections, 10 predicates, 7 sort lists, 7 slices) to depth 2 and a focused 12-operation menu (hitting every has_slice/has_dedup/has_projection/compound branch of the Select machine) to depth 3-5, plus join (with/without predicate, operand on either side) and chain with 12 pre-built operands (projected, deduplicated, selected, sorted+sliced, calculated, bare chain). TLC proves on the code-shaped Select machine that the tree denotes the reference bag for both physical table orders whenever the bag is determined. Every TLC state is built through the real API, compiled by the real engine, run on SQLite with reverse_unordered_selects off and on, and compared as a multiset with TLC's rows; the real tree is also judged by TLC.",
+        design_ref="§6 C02",
+        note="bounded: values 0..1, <=4 rows; SQLite only; bag equality demanded only when TLC's DetTree holds; nested bare compound selects are compiled but not executed (SQLite grammar limit)",
+    ),
+    "C08": dict(
+        technique=SQL + " ; " + ITER,
+        text="Every SqlProgram / IterProgram state is a call sequence the model accepts; the replay demands that the real factories accept it too and that the result compiles and executes on SQLite (or in the iteration engine) without any exception, in both scan orders; exceptions after construction (KeyError, NotImplementedError, database errors) are violations.",
+        design_ref="§6 C08",
+        note="joins/chains of arbitrarily built operands from the 12-operand menu; each further occurrence of a table in one query gets its own alias (user obligation for self-joins)",
+    ),
+    "C11": dict(
+        technique=SQL,
+        text="For every SqlProgram state TLC decides from the data whether the outermost query level carries a sort that totally orders its rows (OrdTree) and proves in the model that the tree's denotation then equals the reference LIST for both physical orders; the replay fetches rows in order from SQLite for both scan orders and demands list equality in exactly those states (slices under a total sort, trailing sort followed by slices/projections/deduplications). Requests that would bury a sort without slice under a join or chain are listed by TLC as must-be-refused (invariant OrderLossRefused) and the replay demands RelationalAlgebraError.",
+        design_ref="§6 C11",
+        note="focused menu: total and partial sorts, three slice windows, projection, deduplication, selection, calculation in every relative position to depth 3 (quick) / 5 (thorough)",
+    ),
+    "C17": dict(
+        technique=SQL,
+        text="Conform(rel) = rel and MarkerCoherent(rel) are invariants of SqlProgram (TLC); the replay checks engine.conform(rel) is rel and the is_compound flag on every real Select, and hands the real tree to TLC, which re-derives each marker's target from its recorded slots and skip target and compares (TraceTree clause coh).",
+        design_ref="§6 C17",
+        note="raw bottom-up trees (conform of arbitrary trees) are added in a later round",
     ),
     "C04": dict(
         technique="TLA+ spec OpPairs (TLC exhaustive over operation pairs x targets) + real commute() answers judged by TLC (TracePairs)",
